@@ -493,7 +493,16 @@ func c12Gen(rng *verifsim.RNG, idx int, tier string) *Plan {
 		p.Class = "perturbed"
 		c12Own(rng, s)
 		for i, k := 0, rng.Range(1, 6); i < k; i++ {
-			p.Actions = append(p.Actions, Action{At: int64(rng.Dur(0, horizon)) + jitter(rng), Kind: "ra", If: "eth0", Src: fmt.Sprintf("fe80::5:%x", rng.Intn(3)+1), RA: c12Peer(rng)})
+			a := Action{At: int64(rng.Dur(0, horizon)) + jitter(rng), Kind: "ra", If: "eth0", Src: fmt.Sprintf("fe80::5:%x", rng.Intn(3)+1), RA: c12Peer(rng)}
+			p.Actions = append(p.Actions, a)
+			if rng.Bool(0.25) {
+				// the same router again, at once or within a second or two, with
+				// other contents: every RA is judged on its own
+				b := a
+				b.RA = c12Peer(rng)
+				b.At += []int64{1, int64(rng.Dur(time.Millisecond, 2500*time.Millisecond))}[rng.Intn(2)]
+				p.Actions = append(p.Actions, b)
+			}
 		}
 		if rng.Bool(0.2) {
 			p.Actions = append(p.Actions, Action{At: int64(rng.Dur(0, horizon)) + jitter(rng), Kind: "fwd", If: "eth0", On: false})
